@@ -42,15 +42,18 @@ import (
 	"strconv"
 	"strings"
 	"sync"
+	"sync/atomic"
 	"time"
 
 	"github.com/gocql/gocql"
+	"github.com/golang/snappy"
 	"verifharness/memcluster"
 	"verifharness/sess"
 	"verifharness/vh"
 )
 
 type hscen struct {
+	zbits      string // v<n>[n<nodes>]z<bits>: snappy negotiated; the k-th answer to a QUERY/EXECUTE/PREPARE without tracing is compressed iff bits[k mod len] = 1
 	ver, nodes int
 	kind       string
 	consumer   string
@@ -63,6 +66,9 @@ func (h hscen) String() string {
 	v := fmt.Sprintf("v%d", h.ver)
 	if h.nodes > 1 {
 		v += fmt.Sprintf("n%d", h.nodes)
+	}
+	if h.zbits != "" {
+		v += "z" + h.zbits
 	}
 	var sc []string
 	for _, k := range h.keys {
@@ -85,7 +91,14 @@ func parseHist(op string) (h hscen, ok bool) {
 	if len(w) != 6 || w[0] != "hist" {
 		return h, false
 	}
-	vn := strings.SplitN(strings.TrimPrefix(w[1], "v"), "n", 2)
+	vtok := w[1]
+	if i := strings.Index(vtok, "z"); i >= 0 {
+		h.zbits, vtok = vtok[i+1:], vtok[:i]
+		if h.zbits == "" || strings.Trim(h.zbits, "01") != "" {
+			return h, false
+		}
+	}
+	vn := strings.SplitN(strings.TrimPrefix(vtok, "v"), "n", 2)
 	h.ver, _ = strconv.Atoi(vn[0])
 	h.nodes = 1
 	if len(vn) == 2 {
@@ -206,12 +219,22 @@ func runHist(h hscen) (answer string) {
 		}
 	}
 	cols := []memcluster.Col{{Name: "v", Type: memcluster.TInt}}
+	var nAnswers int64
 	reply := func(req *memcluster.Request, op byte, body []byte) {
 		if req.Frame.Flags&0x02 != 0 {
 			// tracing requested: the response carries a tracing id
 			f := &memcluster.Frame{Version: byte(h.ver) | 0x80, Flags: 0x02, Stream: req.Stream, Op: op, Body: append(append([]byte{}, traceID...), body...)}
 			req.Conn.WriteRaw(f.Encode(h.ver))
 			return
+		}
+		if h.zbits != "" {
+			// compression as a dimension (see walk.go): answers with and without the compression flag on one connection
+			k := int(atomic.AddInt64(&nAnswers, 1) - 1)
+			if h.zbits[k%len(h.zbits)] == '1' {
+				f := &memcluster.Frame{Version: byte(h.ver) | 0x80, Flags: 0x01, Stream: req.Stream, Op: op, Body: snappy.Encode(nil, body)}
+				req.Conn.WriteRaw(f.Encode(h.ver))
+				return
+			}
 		}
 		req.Conn.Reply(req.Stream, op, body)
 	}
@@ -322,8 +345,22 @@ func runHist(h hscen) (answer string) {
 	}
 	for _, n := range cl.Nodes {
 		n.Handle = handle
+		if h.zbits != "" {
+			n.Supported = map[string][]string{"CQL_VERSION": {"3.0.0"}, "COMPRESSION": {"snappy"}}
+			n.FrameHook = func(_ *memcluster.ServerConn, f *memcluster.Frame) bool {
+				if f.Flags&0x01 != 0 {
+					if b, err := snappy.Decode(nil, f.Body); err == nil {
+						f.Body, f.Flags = b, f.Flags&^0x01
+					}
+				}
+				return false
+			}
+		}
 	}
 	cfg := sess.Config(cl, h.ver, ips...)
+	if h.zbits != "" {
+		cfg.Compressor = gocql.SnappyCompressor{}
+	}
 	cfg.Timeout = 30 * time.Second
 	cfg.ConnectTimeout = 30 * time.Second
 	cfg.WriteTimeout = 30 * time.Second
